@@ -107,8 +107,13 @@ type Exec struct {
 	localSat    int
 	localUnsat  int
 	solGen      int
+	standaloneQ, standaloneOK int
+	standaloneT time.Duration
+	scaled      map[*Term]*Term
+	timeAssumes int
 	solPC       []*Term
 	cur         *frame
+	rawCall     *ssa.Function
 	stepProf    map[*ssa.Function]int
 	lastPanicWhere string
 	snaps       map[*ssa.Package]*pkgSnapshot
@@ -199,6 +204,7 @@ func (ex *Exec) resetPath(item WorkItem) {
 	ex.fresh = 0
 	ex.hashApps = nil
 	ex.hashIn = nil
+	ex.scaled = nil
 	ex.events = nil
 	ex.globals = map[*ssa.Global]*Value{}
 	ex.inited = map[*ssa.Package]bool{}
@@ -272,7 +278,7 @@ func (ex *Exec) checkWith(extra *Term) (Result, *Model) {
 		gen = ex.sol.Gen
 		r = ex.sol.Check()
 		if ex.sol.Gen != gen {
-			return Unknown, nil
+			return ex.Standalone(extra, 120)
 		}
 	}
 	var m *Model
@@ -280,6 +286,10 @@ func (ex *Exec) checkWith(extra *Term) (Result, *Model) {
 		m = ex.sol.GetModel(ex.inputs, ex.ufApps)
 	}
 	ex.sol.Pop()
+	if r == Unknown {
+		// not decided incrementally within the soft timeout: portfolio
+		r, m = ex.Standalone(extra, 120)
+	}
 	return r, m
 }
 
